@@ -211,6 +211,22 @@ def check_stream(ctx, ift, rec, tmpdir, with_h5):
                     bad.append("%s: %d sample groups, first %s" % (tag, ns, s0))
                 if extra:
                     bad.append("%s: contains %s which was not requested" % (tag, extra))
+    # ShiftInvariant: the same stream with a common offset of 1e8 has the same variance and the mean shifted by the offset
+    if n >= 2:
+        off = 1e8
+        big = [ift.makeField(dom, np.array([off + x, off + 2. * x])) for x in xs]
+
+        def vclose(a, b):
+            return np.isfinite(a) and abs(a - b) <= 1e-6 * max(1., abs(b))
+        sc = StatCalculator()
+        for s in big:
+            sc.add(s)
+        v, m = sc.var.asnumpy(), sc.mean.asnumpy()
+        if not (vclose(v[0], float(var)) and vclose(v[1], 4 * float(var)) and abs(m[0] - off - float(mean)) <= 1e-6):
+            bad.append("StatCalculator with a common offset of 1e8: mean - offset %s var %s, expected %s and (%s, %s)" % (m[0] - off, v, mean, var, 4 * var))
+        mm, vv = ift.SampleList(big).sample_stat(None)
+        if not (vclose(vv.asnumpy()[0], float(var)) and vclose(vv.asnumpy()[1], 4 * float(var))):
+            bad.append("SampleList.sample_stat with a common offset of 1e8: variance %s, expected (%s, %s)" % (vv.asnumpy(), var, 4 * var))
     for b in bad:
         ctx.violation(dict(kind="statistics", which=b.split(" ")[0]), "stream %s: %s" % (xs, b), replay=dict(stream=rec))
     return not bad
@@ -235,7 +251,15 @@ def run(ctx):
     # every history save, save, load under one base name with overwriting (a shorter list over a longer one, any task counts, both kinds)
     e3 = ctx.tlc("SampleListFS", CFG % (3 if q else 4, 2 if q else 3, 3, "TRUE", "TRUE") + "INVARIANT Faithful\nINVARIANT Emit\nCONSTRAINT OneBaseOverwrite\nCHECK_DEADLOCK FALSE\n",
                  label="emit all overwrite histories of 3 ops", workers=1, timeout=1700)
-    hists = [d["hist"] for d in s.emitted] + [d["hist"] for d in e2.emitted if any(x["op"] == "load" for x in d["hist"])]
+    # lists whose indices need two digits: every overwrite history over lists of 2, 10, 11, 12 samples (quick: the ones that end in a load of > 9)
+    e4 = ctx.tlc("SampleListFS", CFG % (12, 2, 3, "TRUE", "TRUE") + "INVARIANT Faithful\nINVARIANT Emit\nCONSTRAINT BigLists\nCHECK_DEADLOCK FALSE\n",
+                 label="emit overwrite histories over lists of 2, 10, 11, 12", workers=1, timeout=1700)
+    big = [d["hist"] for d in e4.emitted if d["hist"][-1]["op"] == "load" and d["hist"][1]["op"] == "save"]
+    if q:
+        big = [h for h in big if h[1]["n"] >= 10 and h[0]["n"] != h[1]["n"]][ctx.seed % 4::4]
+    if len(big) < 20:
+        raise tlcmod.MachineryError("too few histories over long lists emitted (%d)" % len(big))
+    hists = big + [d["hist"] for d in s.emitted] + [d["hist"] for d in e2.emitted if any(x["op"] == "load" for x in d["hist"])]
     hists += [d["hist"] for d in e3.emitted if d["hist"][-1]["op"] == "load" and d["hist"][1]["op"] == "save"
               and (not q or d["hist"][1]["n"] < d["hist"][0]["n"])]
     if not q:
@@ -259,7 +283,7 @@ def run(ctx):
         ctx.sample(dict(history=[(x["op"], x["base"], x["n"], x["T"], x["residual"], x["ow"], x["outcome"]) for x in hists[0]]))
         # ---- spec -> code: statistics ----------------------------------------------------------------------------
         ml = 4 if q else 6
-        st = ctx.tlc("StreamStat", "CONSTANTS MaxLen = %d\nEmitAll = TRUE\nSPECIFICATION Spec\nINVARIANT WelfordExact\nINVARIANT VarNonNeg\nINVARIANT Emit\nCHECK_DEADLOCK FALSE\n" % ml,
+        st = ctx.tlc("StreamStat", "CONSTANTS MaxLen = %d\nEmitAll = TRUE\nSPECIFICATION Spec\nINVARIANT WelfordExact\nINVARIANT VarNonNeg\nINVARIANT ShiftInvariant\nINVARIANT Emit\nCHECK_DEADLOCK FALSE\n" % ml,
                      label="all streams <=%d" % ml, workers=1)
         try:
             import h5py  # noqa
